@@ -6,14 +6,18 @@ AllWL == SUBSET Nodes
 OnlyAll == {Nodes}
 WLTwo == {Nodes, {"A", "B"}}
 WLNoM == {{"A", "B"}}
+WLVictim == {Nodes, {"B"}}
+WLFour == {Nodes, {"A", "B"}, {"B"}, {}}
 OnlyP2PKE == {"p2pke"}
 OnlyQUIC == {"quic"}
 OnlySSH == {"ssh"}
+NoQUIC == {"p2pke", "ssh"}
 NoWeak == {}
 WeakF13 == {"sshlast"}
 WeakF35 == {"wlout"}
 WeakDial == {"nodialcheck"}
 WeakPost == {"nopostcheck"}
 WeakProof == {"noproof"}
+WeakCred == {"firstloadable"}
 WeakWlin == {"wlin", "wlout"}
 =============================================================================
